@@ -85,6 +85,14 @@ def _expr(E, s, x, y, A, xd, yd, Ad):
         r = x.mprod(F, 0)
         rd = tn.tensordot(F, xd, dims=([1], [0]))
         return _weighted(E, 'w', r.full()), _weighted(E, 'w', rd)
+    if e == 'scale_by_dot':
+        # a TT scaled by a one-element tensor that itself depends on the tracked cores
+        v = tt.dot(x, y)
+        vd = tn.sum(xd * yd)
+        return _weighted(E, 'w', (x * v).full()), _weighted(E, 'w', xd * vd)
+    if e == 'scale_by_sum':
+        v = x.sum()
+        return _weighted(E, 'w', (v * y + x / 2.0).full()), _weighted(E, 'w', tn.sum(xd) * yd + xd / 2.0)
     if e == 'depth3':
         r = ((x + y) * x - 2.0 * y)
         v = tt.dot(r, x).reshape([])
